@@ -70,9 +70,16 @@ class Layout:
             kinds = ['memword', 'hwword', 'array', 'regfile']
         if r.random() < 0.35:
             pos = r.choice([6, 8, 12, 16])                # the low addresses of the map stay unmapped
+        # one layout in three starts with a register file at an odd word position that holds a power-of-two sized
+        # relative address range: aligned to its size inside the file, not aligned in absolute terms
+        forced = ['regfile!'] if self.style != 'interconnect' and r.random() < 0.35 else []
         while pos < limit - 20 and n < 9:
             pos += r.choice([0, 0, 0, 1, 2, 3])           # gaps are unmapped
-            k = r.choice(kinds)
+            k = forced.pop(0) if forced else r.choice(kinds)
+            force_inner = k == 'regfile!'
+            if force_inner:
+                k = 'regfile'
+                pos += 1 - pos % 2
             name = f"r{n}"
             n += 1
             if k == 'memword':
@@ -104,11 +111,11 @@ class Layout:
                 self.items.append(Item(k, name, pos * 4, cnt * step, count=cnt, step=step))
                 pos += cnt * step
             elif k == 'regfile':
-                wc = r.choice([2, 4, 4, 8])
-                pos = (pos + wc - 1) // wc * wc if r.random() < 0.5 else pos
+                wc = 8 if force_inner else r.choice([2, 4, 4, 8])
+                pos = (pos + wc - 1) // wc * wc if r.random() < 0.5 and not force_inner else pos
                 members = sorted(r.sample(range(wc), r.randint(1, min(wc, 3))))
                 nested = None
-                if wc >= 4 and r.random() < 0.4:
+                if wc >= 4 and r.random() < 0.4 and not force_inner:
                     # a second level: 2-word file in the upper half
                     members = [m for m in members if m < wc // 2] or [0]
                     nested = (wc // 2, [0, 1] if r.random() < 0.5 else [1])
@@ -117,6 +124,9 @@ class Layout:
                     # a memory / address range inside the register file (its addresses are relative to the file's global offset)
                     members = [m for m in members if m < 4] or [0]
                     inner_mem = (4, r.choice([2, 3, 4]), r.choice(['memory', 'range']))
+                if force_inner:
+                    members = [m for m in members if m < 4] or [0]
+                    inner_mem = (4, r.choice([2, 4]), 'range')
                 inner_arr = None
                 if wc == 8 and nested is None and inner_mem is None and r.random() < 0.6:
                     # an array of words inside the register file (element addresses are relative to the file, like every member)
